@@ -814,17 +814,11 @@ class BeliefPropagation(Inference):
             sepset_belief = self.sepset_beliefs[sepset_key]
             if sepset_belief is None:
                 return False
-            # Factor comparison uses an absolute tolerance; bring the three tables to a
-            # common unit scale first so that very small beliefs are not trivially "equal".
-            scale = max(
-                float(phi.values.max())
-                for phi in (marginal_1, marginal_2, sepset_belief)
-            )
-            if 1e-300 < scale < float("inf"):
-                marginal_1 = marginal_1.product(1 / scale, inplace=False)
-                marginal_2 = marginal_2.product(1 / scale, inplace=False)
-                sepset_belief = sepset_belief.product(1 / scale, inplace=False)
-            if marginal_1 != marginal_2 or marginal_1 != sepset_belief:
+            # Compare relatively (no absolute tolerance): beliefs can be arbitrarily small,
+            # and entries far below a table's maximum have to agree as well.
+            if not marginal_1.__eq__(marginal_2, atol=0) or not marginal_1.__eq__(
+                sepset_belief, atol=0
+            ):
                 return False
         return True
 
